@@ -381,10 +381,7 @@ Definition create_position (s : amm) (sender lo up base quote min_base min_quote
   if aq <? min_quote then Err E_GENERIC else
   if (ab <? 0) || (aq <? 0) then Panic else       (* sdk.NewCoin panics on a negative amount *)
   let! s4 := send s3 AUser APool [ab; aq; 0; 0] in
-  match find_pos (a_positions s4) pid with
-  | Some pos => Ok (s4, (pid, ab, aq, pos_liq pos))
-  | None => Ok (s4, (pid, ab, aq, 0))
-  end.
+  Ok (s4, (pid, ab, aq, match find_pos (a_positions s4) pid with Some pos => pos_liq pos | None => 0 end)).
 
 (* Msg/IncreaseLiquidity = full decrease + create with the combined amounts *)
 Definition increase_liquidity (s : amm) (sender pid amount_base amount_quote min_base min_quote : Z)
